@@ -201,9 +201,10 @@ def build_harness():
         p = run(['go', 'build', '-tags', 'verif', '-o', os.path.join(BIN, 'hubsim'), './cmd/hubsim'], cwd=HARNESS, env=GOENV, timeout=1800)
         if p.returncode != 0:
             return False, p.stderr.decode(errors='replace')[-3000:]
-        p = run(['go', 'build', '-tags', 'verif', '-o', os.path.join(BIN, 'probe'), './cmd/probe'], cwd=HARNESS, env=GOENV, timeout=1800)
-        if p.returncode != 0:
-            return False, p.stderr.decode(errors='replace')[-3000:]
+        for tool in ('probe', 'probe19'):
+            p = run(['go', 'build', '-tags', 'verif', '-o', os.path.join(BIN, tool), './cmd/' + tool], cwd=HARNESS, env=GOENV, timeout=1800)
+            if p.returncode != 0:
+                return False, p.stderr.decode(errors='replace')[-3000:]
     return True, ''
 
 
@@ -449,6 +450,12 @@ def check_property(prop, tier, seed):
     if probe:
         for v in probe.get('violations', []):
             violations.append((v['msg'], v))
+        for fid, cnt in (probe.get('known') or {}).items():
+            hit = [f for f in findings if f.get('id') == fid]
+            if hit:
+                known_lines.append('KNOWN-FINDING: property=%s %s (%d cases in this run)' % (prop, hit[0]['what'], cnt))
+            else:
+                violations.append(('finding %s observed but not listed' % fid, {'failing_input': fid}))
     if det:
         for v in det.get('violations', []):
             violations.append((v['msg'], v))
@@ -540,7 +547,93 @@ def run_determinism(tier, seed, th):
     return res
 
 
+def valid_utf8_strings(text):
+    for m in re.finditer(r'\bs:([0-9a-f]*)', text):
+        try:
+            bytes.fromhex(m.group(1)).decode('utf-8')
+        except Exception:
+            return False
+    return True
+
+
+F7_SIG = re.compile(r"unknown_value_.*for_enum_sentinel\.types\.v1\.Status|can't_unmarshal_Any_nested_proto")
+ILLFORMED_ANY = re.compile(r'unable_to_resolve_type_URL|illegal_wireType|unexpected_EOF|proto:_')
+
+
+def run_probe19(tier, seed, th):
+    """C19: type-directed values of every registered hub type through the real codec (binary and
+    JSON); the model must produce the same bytes; mutated bytes must decode alike."""
+    cdir = os.path.join(CACHE, th, 'probe_C19_%s_%d' % (tier, seed))
+    summ = os.path.join(cdir, 'summary.json')
+    if os.path.exists(summ):
+        return json.load(open(summ))
+    os.makedirs(cdir, exist_ok=True)
+    n = 6000 if tier == 'quick' else 120000
+    res = {'evaluations': 0, 'distinct': 0, 'violations': [], 'samples': [], 'known': {}, 'json_fail_illformed': 0, 'noncanonical': 0,
+           'decode_evaluations': 0,
+           'rule': 'every registered sentinel.* type, type-directed boundary values, real ProtoCodec Marshal/Unmarshal/MarshalJSON/UnmarshalJSON vs the Lean wire model (bytes equal); mutated bytes through real Unmarshal vs model decode'}
+    types = set()
+    for mode in ('enc', 'dec'):
+        lines_path = os.path.join(cdir, mode + '.txt')
+        args = [os.path.join(BIN, 'probe19'), '-seed', str(seed), '-n', str(n if mode == 'enc' else n // 2)]
+        if mode == 'dec':
+            args.append('-decode')
+        with open(lines_path, 'wb') as f:
+            p = subprocess.run(args, stdout=f, stderr=subprocess.DEVNULL, timeout=3600)
+        if p.returncode != 0:
+            raise Broken('probe19 failed (%s)' % mode)
+        model_path = os.path.join(cdir, mode + '.model')
+        with open(lines_path, 'rb') as fi, open(model_path, 'wb') as fo:
+            p = subprocess.run([hubmodel(), '--probe'], stdin=fi, stdout=fo, stderr=subprocess.PIPE, timeout=3600)
+        if p.returncode != 0:
+            raise Broken('model probe failed: ' + p.stderr.decode(errors='replace')[-800:])
+        with open(lines_path, errors='replace') as fa, open(model_path, errors='replace') as fb:
+            for a, b in zip(fa, fb):
+                a, b = a.rstrip('\n'), b.strip()
+                if mode == 'dec':
+                    res['decode_evaluations'] += 1
+                    if b != 'ok' and len(res['violations']) < 5:
+                        res['violations'].append({'msg': 'model decode and real Unmarshal differ', 'failing_input': a[:600], 'model': b[:300]})
+                    continue
+                res['evaluations'] += 1
+                m = re.match(r'^pb (\S+) (.*) => (\S+) rt=(\S+) strict=([01]) json_rt=(\S+)$', a)
+                if not m:
+                    raise Broken('unparsable probe19 line: ' + a[:200])
+                name, text, wire, rt, strict, jrt = m.groups()
+                types.add(name)
+                if len(res['samples']) < 6 and res['evaluations'] % 499 == 1:
+                    res['samples'].append({'type': name, 'value': text[:160], 'wire': wire[:80], 'json_rt': jrt[:60]})
+                bad = None
+                if b.startswith('err:noncanonical'):
+                    res['noncanonical'] += 1
+                    if rt == '1' and not wire.startswith('err:'):
+                        bad = 'model says non-canonical but the real codec round-trips'
+                elif b.startswith('err:'):
+                    bad = 'model cannot encode: ' + b[:80]
+                elif b != wire:
+                    bad = 'model bytes differ from real bytes'
+                elif rt != '1':
+                    bad = 'real binary round trip fails on a canonical value (rt=%s)' % rt
+                if bad is None and jrt != '1' and not b.startswith('err:noncanonical'):
+                    if F7_SIG.search(jrt):
+                        res['known']['F7'] = res['known'].get('F7', 0) + 1
+                    elif (jrt == '0' and not valid_utf8_strings(text)) or ILLFORMED_ANY.search(jrt):
+                        res['json_fail_illformed'] += 1
+                    else:
+                        bad = 'JSON round trip fails: ' + jrt[:120]
+                if bad and len(res['violations']) < 5:
+                    res['violations'].append({'msg': bad, 'failing_input': a[:800], 'model': b[:200]})
+        if not res['violations']:
+            os.remove(lines_path)
+            os.remove(model_path)
+    res['distinct'] = len(types)
+    json.dump(res, open(summ, 'w'), indent=1)
+    return res
+
+
 def run_probe(prop, tier, seed, th):
+    if prop == 'C19':
+        return run_probe19(tier, seed, th)
     cdir = os.path.join(CACHE, th, 'probe_%s_%s_%d' % (prop, tier, seed))
     summ = os.path.join(cdir, 'summary.json')
     if os.path.exists(summ):
